@@ -941,4 +941,7 @@ var spec = run.Spec[Case]{ID: "C02", Name: "history", Gen: genCase, Prop: prop, 
 
 func TestPropHistory(t *testing.T) { run.Generated(t, spec) }
 func TestRegress(t *testing.T)     { run.Regress(t, spec) }
-func TestReplay(t *testing.T)      { run.ReplayOne(t, spec) }
+func TestReplay(t *testing.T) {
+	run.ReplayOne(t, spec)
+	run.ReplayOne(t, bigSpec)
+}
